@@ -1,18 +1,11 @@
 """C09 - Text normal form and preprocessing preserve meaning."""
-from checklib import cbool, clist, cpair, cN
-
-
-def cbytes(l):
-    """a byte string as one number (Run/C09.v bN): far fewer tokens for Coq to read than a list"""
-    if not l:
-        return "[]"
-    return "(bN %d%%nat 0x%x)" % (len(l), int.from_bytes(bytes(l), "little"))
+from checklib import cbytes, cbool, clist, cpair, cN
 
 ID = "C09"
 HARNESS = "c09"
-N_CASES = {"quick": 700, "thorough": 12000}
+N_CASES = {"quick": 400, "thorough": 12000}
 N_SEARCH = {"quick": 1, "thorough": 2}
-SHARD = 120
+SHARD = 250
 RULE = ("line level: the sample lines of data_test.go and boundary shapes, then seeded lines of all 17 record types "
         "(optional fields present/absent, trailing fields cut, both separators, octal/hex escapes, wildcard owners, "
         "locations, IPv4/IPv6/v4-mapped addresses, boundary and junk numbers) plus a malformed stream, each run through "
